@@ -412,6 +412,13 @@ Proof.
       rewrite <- (HV (mid + i)) by (rewrite map_length; lia). bcases.
 Qed.
 
+(* targeted evaluation of the pointwise descriptions *)
+Ltac simp_set := repeat (rewrite nth_error_set_nth_other by (autorewrite with nodeproj; lia)).
+Ltac if_false :=
+  match goal with |- context [if ?c then _ else _] => replace c with false by (symmetry; bcases) end.
+Ltac if_true :=
+  match goal with |- context [if ?c then _ else _] => replace c with true by (symmetry; bcases) end.
+
 (* ------------------------------------------------------------------ *)
 (* node_get *)
 Lemma sim_get_leaf : forall cap n id ks vs nx rc z,
@@ -490,18 +497,14 @@ Proof.
     repeat split; try lia; try congruence.
     + rewrite map_remove_at. apply holds_remove with (d := data n); auto.
       * rewrite map_length. lia.
-      * intros j Hj. cbn [Nat.add]. rewrite !nth_error_set_nth. autorewrite with nodeproj.
-        rewrite P2. unfold n1. autorewrite with nodeproj. rewrite !nth_error_set_nth.
-        rewrite M3, M4, M6, R3, R4, R6. autorewrite with nodeproj. rewrite R6. bcases.
-      * rewrite map_length. intros j Hj Hj2. cbn [Nat.add]. rewrite !nth_error_set_nth. autorewrite with nodeproj.
-        rewrite P2. unfold n1. autorewrite with nodeproj. rewrite !nth_error_set_nth.
-        rewrite M3, M4, M6, R3, R4, R6. autorewrite with nodeproj. rewrite R6. bcases.
+      * intros j Hj. cbn [Nat.add]. simp_set. rewrite P2. if_false.
+        unfold n1. autorewrite with nodeproj. simp_set. reflexivity.
+      * rewrite map_length. intros j Hj Hj2. cbn [Nat.add]. simp_set. rewrite P2. if_true.
+        unfold n1. autorewrite with nodeproj. simp_set. reflexivity.
     + rewrite map_remove_at. apply holds_remove with (d := data n); auto.
       * rewrite map_length. lia.
-      * intros j Hj. rewrite !nth_error_set_nth. autorewrite with nodeproj.
-        rewrite P2. unfold n1. autorewrite with nodeproj. rewrite !nth_error_set_nth.
-        rewrite M3, M4, M6, R3, R4, R6. autorewrite with nodeproj. rewrite R6. bcases.
-      * rewrite map_length. intros j Hj Hj2. rewrite !nth_error_set_nth. autorewrite with nodeproj.
-        rewrite P2. unfold n1. autorewrite with nodeproj. rewrite !nth_error_set_nth.
-        rewrite M3, M4, M6, R3, R4, R6. autorewrite with nodeproj. rewrite R6. bcases.
+      * intros j Hj. simp_set. rewrite P2. if_false.
+        unfold n1. autorewrite with nodeproj. simp_set. reflexivity.
+      * rewrite map_length. intros j Hj Hj2. simp_set. rewrite P2. if_true.
+        unfold n1. autorewrite with nodeproj. simp_set. f_equal. lia.
 Qed.
